@@ -530,6 +530,34 @@ def analyze(ctx, want):
     its = [c for c in calls if re.search(ADAPTERS, c)]
     calls_h = calls + [M.call_name(t) for f_ in F.fns.values() if S.is_unknown_helper(f_) and any(o.name == ut.name for o, _ in owners(F, f_)) for bb, t in f_.calls()]   # (+ helpers introduced later)
     ob("C03.f", "all-merged-transitions-installed", not its and any(re.search(r"Vec::<.*>::push$", c) for c in calls_h), "adapters %s" % its, ut.loc())
+    # the installing loop: a merged transition (class, target) is passed over only if that very pair is already in the state's list
+    # (seed C17j: a hash set of "edges seen" keyed by a saturating from*n+to — distinct edges share a key beyond 65 536 states)
+    try:
+        exu, pu = run_fn(ut, F, LogModel(), max_paths=4000)
+        loops_u = ut.natural_loops()
+        inner_u = [h for h in loops_u if not any(h2 != h and h2 in loops_u[h] for h2 in loops_u)]
+        depth = lambda h: sum(1 for h2 in loops_u if h in loops_u[h2])
+        inner_u = sorted(inner_u, key=lambda h: -depth(h))[:1]
+        n_push = n_skip = 0
+        bad_u = []
+        for p in pu:
+            dst_ = (p.end[1][1] if isinstance(p.end[1], tuple) else p.end[-1]) if (p.end and p.end[0] == "cut" and len(p.end) > 1) else None
+            if not (inner_u and dst_ == inner_u[0]):
+                continue
+            pushes = [e for e in p.events if e[0] == "call" and re.search(r"Vec::<\(.*CharClassID, .*\)>::push$", e[2])]
+            if pushes:
+                n_push += 1
+                continue
+            n_skip += 1
+            cont = [(c, o) for c, o in p.conds if c[0] == "app" and re.search(r"<impl \[.*\]>::contains$|Vec::<.*>::contains$", str(c[1])) and "transitions" in S.fstr(c[2][0])]
+            if not (cont and cont[-1][1] is True and re.search(r"dfa\.states", S.fstr(cont[-1][0][2][0]))):
+                bad_u.append("a merged transition is not installed under %s" % [(S.fstr(c)[:70], o) for c, o in p.conds if "Trace" not in S.fstr(c) and "max_level" not in S.fstr(c)][-2:])
+        if n_push or n_skip:
+            ob("C03.f", "a-merged-transition-is-passed-over-only-if-already-installed", not bad_u and n_push >= 1, "; ".join(bad_u[:2]) or "%d installing path(s), %d path(s) passing over a pair that the state's list already contains" % (n_push, n_skip), ut.loc())
+        else:
+            ob("C03.f", "a-merged-transition-is-passed-over-only-if-already-installed", False, "the installing loop of update_transitions was not recognised", ut.loc())
+    except M.AnchorMissing:
+        raise
     rn = F.fn(r"Minimizer::renumber_states_in_transitions$")
     ctx.analysed_fn(rn)
     # every state id stored in the transition list — the source of an entry and each of its targets — is overwritten with the
